@@ -9,6 +9,7 @@ mod input;
 mod oracle;
 mod bits;
 mod probes;
+mod versions;
 
 use input::Input;
 
